@@ -47,6 +47,8 @@ enum Local {
 // handle is moved to exactly one thread before use (what the runtime does too).
 struct SendLocal(Local);
 unsafe impl Send for SendLocal {}
+// foreign producers (Op::PushF) share the handle the way the runtime shares an event loop's queue with submitting threads
+unsafe impl Sync for SendLocal {}
 unsafe impl Sync for Shared {}
 unsafe impl Send for Shared {}
 
@@ -139,6 +141,9 @@ fn prio_from(rng: &mut Rng, palette: u64) -> i64 {
 #[derive(Clone, Copy, Debug)]
 enum Op {
     PushL(i64),
+    /// push into the local queue of the next thread (what task submission from arbitrary threads does to an event loop's queue);
+    /// only generated for the priority queue, whose `push_with_priority` takes turns between producers
+    PushF(i64),
     PopL,
     PushS(i64),
     PopS,
@@ -147,6 +152,7 @@ enum Op {
 fn op_str(o: &Op) -> String {
     match o {
         Op::PushL(p) => format!("L+{p}"),
+        Op::PushF(p) => format!("F+{p}"),
         Op::PopL => "L-".into(),
         Op::PushS(p) => format!("S+{p}"),
         Op::PopS => "S-".into(),
@@ -208,6 +214,8 @@ fn gen_conc(seed: u64, case: u64, thorough: bool, miri: bool) -> ConcCase {
     // bias: more pushes than pops early so that locals overflow and get stolen from
     let push_bias = rng.range(40, 70);
     let shared_bias = rng.range(5, 30);
+    // a third of the priority-queue cases have foreign producers
+    let foreign_pct = if matches!(kind, Kind::Ordered) && (if miri { case % 4 == 2 } else { case % 6 == 2 }) { rng.range(20, 60) } else { 0 };
     let progs = (0..threads)
         .map(|_| {
             (0..ops)
@@ -215,6 +223,7 @@ fn gen_conc(seed: u64, case: u64, thorough: bool, miri: bool) -> ConcCase {
                     let push = rng.chance(push_bias, 100);
                     let sh = rng.chance(shared_bias, 100);
                     match (push, sh) {
+                        (true, false) if rng.chance(foreign_pct, 100) => Op::PushF(prio_from(&mut rng, palette)),
                         (true, false) => Op::PushL(prio_from(&mut rng, palette)),
                         (true, true) => Op::PushS(prio_from(&mut rng, palette)),
                         (false, false) => Op::PopL,
@@ -242,7 +251,7 @@ struct ConcResult {
 /// must exit the process.
 fn run_conc(c: &ConcCase, cpu_limit_ns: u64, wall_limit_ms: u64) -> ConcResult {
     let shared = Shared::new(c.kind, c.threads, c.cap);
-    let locals: Vec<SendLocal> = (0..c.threads).map(|_| SendLocal(shared.local())).collect();
+    let locals: Vec<Arc<SendLocal>> = (0..c.threads).map(|_| Arc::new(SendLocal(shared.local()))).collect();
     let slots: Arc<Vec<ThreadSlot>> = Arc::new(
         (0..c.threads)
             .map(|_| ThreadSlot { cur: AtomicUsize::new(0), cpu_clock: AtomicU64::new(0), done: AtomicUsize::new(0) })
@@ -250,7 +259,8 @@ fn run_conc(c: &ConcCase, cpu_limit_ns: u64, wall_limit_ms: u64) -> ConcResult {
     );
     let start = Arc::new(std::sync::Barrier::new(c.threads));
     let mut handles = vec![];
-    for (t, local) in locals.into_iter().enumerate() {
+    for t in 0..c.threads {
+        let (local, next) = (locals[t].clone(), locals[(t + 1) % c.threads].clone());
         let prog = c.progs[t].clone();
         let slots = slots.clone();
         let start = start.clone();
@@ -270,6 +280,12 @@ fn run_conc(c: &ConcCase, cpu_limit_ns: u64, wall_limit_ms: u64) -> ConcResult {
                         ctr += 1;
                         pushed.push(it);
                         local.0.push(it);
+                    }
+                    Op::PushF(p) => {
+                        let it = Item { id: ((t as u64) << 32) | ctr, prio: p };
+                        ctr += 1;
+                        pushed.push(it);
+                        next.0.push(it);
                     }
                     Op::PushS(p) => {
                         let it = Item { id: ((t as u64) << 32) | ctr, prio: p };
@@ -291,7 +307,8 @@ fn run_conc(c: &ConcCase, cpu_limit_ns: u64, wall_limit_ms: u64) -> ConcResult {
             }
             slot.cur.store(0, Ordering::SeqCst);
             slot.done.store(1, Ordering::SeqCst);
-            (local, pushed, popped)
+            drop((local, next));
+            (pushed, popped)
         }));
     }
     // ---- watchdog (native only; under Miri the driver's timeout is the watchdog)
@@ -321,6 +338,7 @@ fn run_conc(c: &ConcCase, cpu_limit_ns: u64, wall_limit_ms: u64) -> ConcResult {
                         verdict: Verdict::Violated,
                         sig: format!("C04/{}/concurrent/{}-never-returns", c.kind.name(), match op {
                             Op::PushL(_) => "local-push",
+                            Op::PushF(_) => "foreign-local-push",
                             Op::PopL => "local-pop",
                             Op::PushS(_) => "shared-push",
                             Op::PopS => "shared-pop",
@@ -346,12 +364,12 @@ fn run_conc(c: &ConcCase, cpu_limit_ns: u64, wall_limit_ms: u64) -> ConcResult {
         }
     }
     let _ = (cpu_limit_ns, wall_limit_ms);
-    let mut locals_back = vec![];
+    let locals_back = locals;
     let mut pushed_all: HashMap<u64, Item> = HashMap::new();
     let mut popped_all: Vec<Item> = vec![];
     let mut per_thread_foreign = 0usize;
     for (t, h) in handles.into_iter().enumerate() {
-        let (l, pu, po) = h.join().expect("worker panicked");
+        let (pu, po) = h.join().expect("worker panicked");
         for it in &po {
             if (it.id >> 32) as usize != t {
                 per_thread_foreign += 1;
@@ -361,7 +379,6 @@ fn run_conc(c: &ConcCase, cpu_limit_ns: u64, wall_limit_ms: u64) -> ConcResult {
             pushed_all.insert(it.id, it);
         }
         popped_all.extend(po);
-        locals_back.push(l);
     }
     // ---- oracle at quiescence
     let mut viol: Vec<(String, String)> = vec![];
@@ -428,7 +445,7 @@ fn run_conc(c: &ConcCase, cpu_limit_ns: u64, wall_limit_ms: u64) -> ConcResult {
     for l in locals_back {
         std::mem::forget(l);
     }
-    let overflow_possible = c.progs.iter().any(|p| p.iter().filter(|o| matches!(o, Op::PushL(_))).count() > c.cap);
+    let overflow_possible = c.progs.iter().any(|p| p.iter().filter(|o| matches!(o, Op::PushL(_) | Op::PushF(_))).count() > c.cap);
     let nontrivial = per_thread_foreign > 0 && overflow_possible;
     let obs = jobj! {
         "pushed" => pushed_all.len(), "popped_while_running" => seen.len(), "drained" => drained.len(),
